@@ -4,7 +4,7 @@ From Coq Require Import Reals List.
 From Coquelicot Require Import Coquelicot.
 From GS Require Import ExprR LinAlg Meth MethR Prog Chain Wrap Spec GenR2 GenR3 GenSE2 GenSE3 GenEdges
   C10_SE3 C10_SE3_boxplus C10_SE2 C10_Rn C09_SE3 C09_SE2 C11_main C01_SE3 C01_Rn C01_SE2 C02_model C07_errors C07_equiv C07_traj
-  GraphModel GNSpec C07_jac2 C07_lmk C07_basis C07_traj2 C07_RnJac C07_all.
+  GraphModel GNSpec C07_jac2 C07_lmk C07_basis C07_traj2 C07_RnJac C03_sums C07_glue C07_all.
 Import ListNotations.
 Open Scope R_scope.
 
@@ -68,6 +68,20 @@ Theorem C07 :
      nth i (matvec (nth 1 (jac_lmk2 (comp2 T p) (act2 T l) z off) []) u) 0 = nth i (matvec (nth 1 (jac_lmk2 p l z off) []) (rot2 (evl T SE2_inv) u)) 0) /\
   (forall T u, length T = 7%nat -> length u = 3%nat -> unitq T -> rot3 T (rot3 (evl T SE3_inv) u) = u /\ rot3 (evl T SE3_inv) (rot3 T u) = u) /\
   (forall T u, length T = 3%nat -> length u = 2%nat -> rot2 T (rot2 (evl T SE2_inv) u) = u /\ rot2 (evl T SE2_inv) (rot2 T u) = u) /\
+  (* ---- glue between the two levels: entry by entry, the landmark-slot Jacobian of the transformed edge is  sum_m J[a][m] * M[m][j]
+          with M the matrix of the rotation of T^-1 -- literally the body of [tb_mat] (proofs/C07_basis.v) with Q_landmark = M: the transformed
+          landmark edge IS the re-based edge ---- *)
+  (forall T p l z off, length T = 7%nat -> length p = 7%nat -> length l = 3%nat -> length z = 3%nat ->
+     length off = 7%nat -> unitq T -> unitq p -> unitq off ->
+     forall a j, (a < 3)%nat -> (j < 3)%nat ->
+       nth j (nth a (nth 1 (jac_lmk3 (comp3 T p) (act3 T l) z off) []) []) 0
+       = sumnR 3 (fun m => nth m (nth a (nth 1 (jac_lmk3 p l z off) []) []) 0 * nth j (nth m (Rm3 (evl T SE3_inv)) []) 0)) /\
+  (forall T p l z off, length T = 3%nat -> length p = 3%nat -> length l = 2%nat -> length z = 2%nat -> length off = 3%nat ->
+     forall a j, (a < 2)%nat -> (j < 2)%nat ->
+       nth j (nth a (nth 1 (jac_lmk2 (comp2 T p) (act2 T l) z off) []) []) 0
+       = sumnR 2 (fun m => nth m (nth a (nth 1 (jac_lmk2 p l z off) []) []) 0 * nth j (nth m (Rm2 (evl T SE2_inv)) []) 0)) /\
+  (forall T u, length T = 7%nat -> length u = 3%nat -> matvec (Rm3 T) u = rot3 T u) /\
+  (forall T u, length T = 3%nat -> length u = 2%nat -> matvec (Rm2 T) u = rot2 T u) /\
   (* ---- graph level (lib/GNSpec.v): a per-vertex change of tangent basis  J' = J Q,  Q_k P_k = I  maps every solution d of
           the normal equations to the solution P d of the re-based system, and leaves chi^2 alone ---- *)
   (forall vs es Q P d, wf_graph vs es -> inverse_blocks vs Q P ->
